@@ -219,6 +219,7 @@ CHECKS["C17"] = {
         J("roundtrip", "c17", "TestRoundTrip", 4000, 150000, 12),
         J("literal", "c17", "TestLiteral", 2500, 60000, 4),
         J("crosstype", "c17", "TestCrossType", 1200, 30000, 4),
+        J("conversions", "c17", "TestConversions", 800, 15000, 2),
         J("known", "c17", "TestKnownAnyNumberKind", None, None),
     ],
     "assumptions": [
